@@ -17,6 +17,12 @@ class AnalysisError(Exception):
     """The analysis cannot give a verdict (vanished anchor, undecided predicate, floor not met). Exit status 2."""
 
 
+class LostAnchor(AnalysisError):
+    """A named internal function / class / method a white-box rule is written against does not exist in this tree. A rule that is marked
+    optional (its behaviour is also decided end to end through the public interface) is then reported as not evaluated; anywhere else this
+    is an analysis error like any other."""
+
+
 def repo_root():
     return os.environ.get('PMSTATIC_REPO', '/repo')
 
@@ -239,23 +245,23 @@ class Model(object):
     def func(self, qual):
         fi = self.funcs.get(qual)
         if fi is None:
-            raise AnalysisError('anchor function %s not found' % qual)
+            raise LostAnchor('anchor function %s not found' % qual)
         return fi
 
     def cls(self, qual):
         ci = self.classes.get(qual)
         if ci is None:
-            raise AnalysisError('anchor class %s not found' % qual)
+            raise LostAnchor('anchor class %s not found' % qual)
         return ci
 
     def tree(self, mod):
         if mod not in self.modules:
-            raise AnalysisError('anchor module %s not found' % mod)
+            raise LostAnchor('anchor module %s not found' % mod)
         return self.trees[self.modules[mod]]
 
     def path(self, mod):
         if mod not in self.modules:
-            raise AnalysisError('anchor module %s not found' % mod)
+            raise LostAnchor('anchor module %s not found' % mod)
         return self.modules[mod]
 
     def methods(self, cq, own_only=False):
@@ -284,6 +290,31 @@ class Model(object):
 
     def subclasses(self, cq):
         return [q for q in self.classes if cq in self.mro(q)[1:]]
+
+    def require_names(self, *names):
+        """Internal helper names a white-box rule answers with hooks (functions or methods, by short name) must exist somewhere in the package."""
+        have = self.__dict__.get('_short_names')
+        if have is None:
+            have = self.__dict__['_short_names'] = {q.rsplit('.', 1)[1] for q in self.funcs}
+        names = [n for n in names if not n.startswith('ast.') and n not in ('iter_child_nodes', 'iter_fields', 'get_parent', 'set_parent', 'dir')]
+        missing = [n for n in names if n.lstrip('.').split('.')[-1] not in have]
+        if missing:
+            raise LostAnchor('internal helper(s) %s no longer exist under that name' % ', '.join(missing))
+
+    def undecided(self, hook_names, message):
+        """An abstract run over a synthetic world did not come to a verdict. When some of the internal helpers the world answers by name are
+        gone, that is why (a lost anchor); otherwise it is an undecided evaluation."""
+        try:
+            self.require_names(*hook_names)
+        except LostAnchor as e:
+            raise LostAnchor('%s -- %s' % (e, message[:160]))
+        raise AnalysisError(message)
+
+    def require_method(self, cq, name):
+        fi = self.method(cq, name) if cq in self.classes else None
+        if fi is None:
+            raise LostAnchor('anchor method %s.%s not found' % (cq, name))
+        return fi
 
     def method(self, cq, name):
         cache = self.__dict__.setdefault('_method_cache', {})
